@@ -27,7 +27,7 @@ ASSUMPTIONS = [
     "an exception raised by mashumaro's code generator while the class is being defined means the class cannot exist: no verdict (counted)",
     "first use = first instantiation, performed after all classes of the module (incl. forward-referenced ones) are defined",
 ]
-MUST_SEE = ["reject_at_first_use", "reject_at_definition", "override_changes_category", "newtype_node_in_tuple", "none_annotation", "child_verdicts", "prop_verdicts", "forward_refs", "postponed", "inherited"]
+MUST_SEE = ["reject_at_first_use", "reject_at_definition", "override_changes_category", "newtype_node_in_tuple", "none_annotation", "child_verdicts", "prop_verdicts", "forward_refs", "postponed", "inherited", "reuse_after_rejection"]
 CONFIG = {
     "quick": {"shards": 16, "d2_sample": 200, "d3_sample": 40, "layouts_per_ann": 3, "watchdog_s": 600},
     "thorough": {"shards": 32, "d2_sample": -1, "d3_sample": 2000, "layouts_per_ann": 99, "watchdog_s": 3400},
@@ -168,6 +168,19 @@ def run_batch(ctx, P, items, postponed_module: bool):
                 ctx.violation(mech("first-use-raised-other"), "first instantiation raised something other than InvalidFieldAnnotations", dict(detail, error=inst[1], tb=inst[2]))
                 continue
             ctx.count("reject_at_first_use")
+            # the rejection is not a one-off: every later use is rejected as well (nothing half-classified stays cached)
+            again = []
+            for use in (lambda: C(), lambda: C.get_child_fields(), lambda: list(C.get_property_fields()), lambda: C()):
+                try:
+                    use()
+                    again.append("ok")
+                except InvalidFieldAnnotations:
+                    again.append("reject")
+                except Exception as e2:  # noqa: BLE001
+                    again.append(type(e2).__name__)
+            ctx.count("reuse_after_rejection")
+            if verdict == "REJECT" and any(a != "reject" for a in again):
+                ctx.violation(mech("accepted-after-rejection"), "a class rejected at first use is accepted (or fails differently) when used again", dict(detail, later_uses=again))
             if verdict != "REJECT":
                 ctx.violation(mech("valid-annotation-rejected"), f"a {verdict} annotation was rejected at first use", dict(detail, fields=inst[1]))
             elif "x" not in inst[1]:
